@@ -89,6 +89,17 @@ Theorem C05_pedersen_verify_iff : forall F (K : fops F), flaws K -> forall (m : 
 Proof. exact @pedersen_verify_iff. Qed.
 Print Assumptions C05_pedersen_verify_iff.
 
+(* Pedersen with any number of dealers (both coefficient vectors are combined entry-wise by Op) *)
+Theorem C05_pedersen_vv_op_sum_n : forall F (K : fops F), flaws K -> forall (m : msp) id ss bs VA1 VAs VB1 VBs,
+  length VA1 = msp_D m -> Forall (fun V => length V = msp_D m) VAs ->
+  length VB1 = msp_D m -> Forall (fun V => length V = msp_D m) VBs ->
+  rows_of m id <> [] ->
+  (pedersen_verify K m id ss bs (fold_left (vadd K) VAs VA1) (fold_left (vadd K) VBs VB1) = true <->
+   ss = fold_left (vals_add K) (map (fun V => derived K m V id) VAs) (derived K m VA1 id) /\
+   bs = fold_left (vals_add K) (map (fun V => derived K m V id) VBs) (derived K m VB1 id)).
+Proof. exact @pedersen_vv_op_sum_n. Qed.
+Print Assumptions C05_pedersen_vv_op_sum_n.
+
 (* hypotheses are satisfiable: threshold (2,3) over Z_7, dealer column (5,4); holder 1's share 5+4 = 2 *)
 Definition K7 := ZpS 7 (prime_gt0 7 prime_7).
 Definition fromN7 (n : N) := zp_of 7 (prime_gt0 7 prime_7) (Z.of_N n).
